@@ -1249,7 +1249,9 @@ def parse_deftype(toks):
 
     letters = set()
     for start, end in ranges:
+        start = start.lower()
         if end:
+            end = end.lower()
             letters.update(
                 chr(c) for c in range(ord(start), ord(end) + 1))
         else:
